@@ -495,6 +495,10 @@ class Ranger:
             if nm in ("count_ones", "leading_zeros", "trailing_zeros", "count_zeros", "leading_ones", "trailing_ones"):
                 mt = re.search(r"<impl (\w+)>", mc["path"] or "")
                 bits = INT_TYPES.get(mt.group(1), (128,))[0] if mt else 128
+                if nm in ("leading_zeros", "trailing_zeros"):
+                    rr = self.rng(mc["recv"], env, at)
+                    if rr is not None and (rr[0] >= 1 or rr[1] <= -1):
+                        return (0, bits - 1)  # a non-zero value has a set bit: fewer than `bits` zeros before it
                 return (0, bits)
             if nm == "min" and len(mc["args"]) == 1:
                 a, b = self.rng(mc["recv"], env, at), self.rng(mc["args"][0], env, at)
@@ -803,6 +807,7 @@ class Walker:
         self.block_tail = {}
         self._keep = []
         self.counter_loops = set()  # ids of `while` loops with a recognised counter (they terminate)
+        self.closure_hint = {}  # id(closure node) -> range of its first parameter (an adaptor of an integer range calls it with the elements)
 
     def bind_let(self, st, env):
         self.seq += 1
@@ -1186,6 +1191,18 @@ class Walker:
         self.seq += 1
         if self.on_node:
             self.on_node(n, env, loops, self.seq)
+        if t == "mcall" and n[2] in ("filter", "map", "for_each", "any", "all", "position", "find", "take_while", "skip_while", "filter_map", "try_for_each"):
+            mc_ = H.mcall(n)
+            base_ = H.strip(mc_["recv"])
+            while H.is_mcall(base_) and H.mcall(base_)["name"] in ("filter", "rev", "skip", "take", "step_by", "skip_while", "take_while", "into_iter", "by_ref"):
+                base_ = H.strip(H.mcall(base_)["recv"])
+            if H.tag(base_) == "struct" and base_[1].split("<")[0].endswith("::Range") and mc_["args"]:
+                f_ = dict((a, b) for a, b in base_[2])
+                lo_, hi_ = self.r.rng(f_.get("start"), env, self.seq), self.r.rng(f_.get("end"), env, self.seq)
+                cl_ = H.strip(mc_["args"][0])
+                if lo_ and hi_ and H.tag(cl_) == "closure":
+                    self.closure_hint[id(cl_)] = (lo_[0], max(hi_[1] - 1, lo_[0]))
+                    self._keep.append(cl_)
         if t == "block":
             e2 = env.child()
             for s in n[1]:
@@ -1220,8 +1237,15 @@ class Walker:
             ie = H.strip(it)
             bound = None
             enum_bound = None
-            if H.tag(ie) == "struct" and ie[1].endswith("::Range"):
-                f = dict((a, b) for a, b in ie[2])
+            base_ = ie
+            if H.tag(base_) == "local" and base_[1] not in self.r.mutated:
+                b_ = env.get(base_[1], self.seq)
+                if b_ is not None and b_[0] == "expr":
+                    base_ = H.strip(b_[1])  # `let it = (0..n).filter(..); for i in it`
+            while H.is_mcall(base_) and H.mcall(base_)["name"] in ("filter", "rev", "skip", "take", "step_by", "skip_while", "take_while", "into_iter", "by_ref"):
+                base_ = H.strip(H.mcall(base_)["recv"])  # the elements that come through are elements of the range
+            if H.tag(base_) == "struct" and base_[1].split("<")[0].endswith("::Range"):
+                f = dict((a, b) for a, b in base_[2])
                 lo = self.r.rng(f.get("start"), env, self.seq)
                 hi = self.r.rng(f.get("end"), env, self.seq)
                 if lo and hi:
@@ -1389,9 +1413,16 @@ class Walker:
             self.loop_entry(n, env)
             e2 = env.child()
             self.seq += 1
-            for p in n[2]:
-                if H.tag(p) == "bind":
-                    e2.set(p[1], ("type", p[4]), self.seq)
+            hint = self.closure_hint.get(id(n))
+            for k_, p in enumerate(n[2]):
+                pp_ = p
+                while H.tag(pp_) in ("pref", "pderef"):
+                    pp_ = pp_[1]
+                if H.tag(pp_) == "bind":
+                    if k_ == 0 and hint is not None:
+                        e2.set(pp_[1], ("range", hint[0], hint[1]), self.seq)  # called with the elements of an integer range
+                    else:
+                        e2.set(pp_[1], ("type", pp_[4]), self.seq)
             self.walk(n[3], e2, loops)
             self.loop_entry(n, env)
             return
